@@ -7,7 +7,6 @@ import (
 	"os"
 	"reflect"
 	"strconv"
-	"strings"
 	"testing"
 
 	enc "github.com/named-data/ndnd/std/encoding"
@@ -120,9 +119,6 @@ func TestTrace(t *testing.T) {
 				g.Big = save
 			}
 			vstr := e.DumpStruct(p)
-			dumpSegs = true
-			vsegs := e.DumpStruct(p)
-			dumpSegs = false
 			er := e.Encode(p)
 			if er.Panic != "" {
 				fmt.Fprintf(w, "X %d %d encode-panic %s %s\n", e.Pi, e.Mi, vstr, strconv.Quote(er.Panic))
@@ -130,18 +126,7 @@ func TestTrace(t *testing.T) {
 			}
 			b := er.Wire.Join()
 			fmt.Fprintf(w, "E %d %d %s %s %d\n", e.Pi, e.Mi, vstr, hexOrDash(b), er.Length)
-			if e.M.NoCopy {
-				// the wire as returned: buffer boundaries and Init's wirePlan
-				plan := make([]string, len(er.Plan))
-				for i, x := range er.Plan {
-					plan[i] = strconv.FormatUint(x, 10)
-				}
-				ps := "-"
-				if len(plan) > 0 {
-					ps = strings.Join(plan, ",")
-				}
-				fmt.Fprintf(w, "EW %d %d %s %s %s\n", e.Pi, e.Mi, vsegs, segsStr(er.Wire), ps)
-			}
+			e.emitEW(w, p, er)
 			if !er.PlanOK {
 				fmt.Fprintf(w, "X %d %d wireplan-mismatch %s plan=%v\n", e.Pi, e.Mi, vstr, er.Plan)
 			}
